@@ -458,6 +458,45 @@ def rule_h(chk, prog):
     chk.floor("C07.h", n, 1, "day offsets added to the planting date in read_model_parameters")
 
 
+def rule_i(chk, prog):
+    """C07.i (the termination test sees the clock of the day just simulated): in _perform_timestep the daily solution, the termination test and
+    the clock update are called in this order on every path - each call dominates the next and none is reachable again from a later one.
+    Evaluated after the update, `step_end_time` is already the next day's: a run stopped by its end date ends a day early."""
+    pt = prog.func("aquacrop.core:AquaCropModel._perform_timestep")
+    flow = flow_of(pt)
+    cfg = flow.cfg
+    where = f"{pt.module}:{pt.qualname}"
+    sites = {}
+    for c, t in prog.calls_in(pt):
+        nm = getattr(t, "name", None)
+        if nm in ("solution_single_time_step", "check_model_is_finished", "update_time"):
+            node = cfg.node_containing(c)
+            if node is None:
+                raise AnalysisError(f"_perform_timestep: call of {nm} not in the CFG")
+            sites.setdefault(nm, []).append(node.id)
+    for nm in ("solution_single_time_step", "check_model_is_finished", "update_time"):
+        if len(sites.get(nm, [])) != 1:
+            raise AnalysisError(f"_perform_timestep: expected exactly one call of {nm}, found {len(sites.get(nm, []))}")
+    chk.fn(pt.key)
+    dom = cfg.dominators()
+    order = ["solution_single_time_step", "check_model_is_finished", "update_time"]
+    for a, b in zip(order, order[1:]):
+        na, nb = sites[a][0], sites[b][0]
+        construct = f"{a}(...) before {b}(...)"
+        if na in dom[nb] and na != nb and not cfg.paths_exist_avoiding(nb, na, set()):
+            chk.ok("C07.i", where, construct, "the first call dominates the second and is not reachable from it")
+        else:
+            chk.violation("C07.i", where, construct, f"{b} can run before {a} (or again after it): the termination test must read the clock of the day just "
+                          "simulated, before update_time advances it - otherwise a run that is stopped by its end date ends one day early", loc=pt.loc(cfg.nodes[nb].ast))
+    # the termination test reads the clock through the same object the update then advances (not a stale copy)
+    chk_call = cfg.nodes[sites["check_model_is_finished"][0]].ast
+    reads = {norm(a) for a in ast.walk(chk_call) if isinstance(a, ast.Attribute) and a.attr in ("step_end_time", "simulation_end_date")}
+    if len(reads) >= 2:
+        chk.ok("C07.i", where, "check_model_is_finished(step_end_time, simulation_end_date, ...)", "reads the clock's step end and the end date")
+    else:
+        chk.violation("C07.i", where, "check_model_is_finished(...)", "the termination test no longer reads the clock's step_end_time and simulation_end_date", loc=pt.loc(chk_call))
+
+
 def run(chk, prog, tier):
     rule_a(chk, prog)
     rule_b(chk, prog)
@@ -467,4 +506,5 @@ def run(chk, prog, tier):
     rule_f(chk, prog)
     rule_g(chk, prog)
     rule_h(chk, prog)
+    rule_i(chk, prog)
     chk.exhaustive = True
